@@ -208,3 +208,40 @@ func VerifC12_WrongPassphraseLong() {
 	verif_Assert(err == nil && derr == nil && bytes.Equal(dec, payload), "round trip with a long passphrase")
 	verif_Assert(e2 != nil && d2 == nil, "a passphrase differing only in its last byte fails closed, however long the passphrase")
 }
+
+// C12 (deterministic, also when several goroutines use the package at once —
+// concurrent finds do): two goroutines hash and encrypt at the same time; each
+// gets exactly what a sequential call gives. The happens-before race detector
+// watches the package's own state (cfg "races").
+func VerifC12_ConcurrentUse() {
+	mhA, mhB := multihash.Multihash{0x12, 0x02, 0xaa, 0x01}, multihash.Multihash{0x12, 0x02, 0xbb, 0x02}
+	payload := []byte{1, 2, 3}
+	refA, refB := SecondMultihash(mhA), SecondMultihash(mhB)
+	encA, errA := EncryptMetadata(payload, mhA)
+	encB, errB := EncryptMetadata(payload, mhB)
+	verif_Assume(errA == nil && errB == nil)
+	type out struct {
+		second multihash.Multihash
+		enc    []byte
+		dec    []byte
+		err    error
+	}
+	run := func(mh multihash.Multihash, ch chan out) {
+		var o out
+		o.second = SecondMultihash(mh)
+		o.enc, o.err = EncryptMetadata(payload, mh)
+		if o.err == nil {
+			o.dec, o.err = DecryptMetadata(o.enc, mh)
+		}
+		ch <- o
+	}
+	ca, cb := make(chan out, 1), make(chan out, 1)
+	go run(mhA, ca)
+	go run(mhB, cb)
+	oa, ob := <-ca, <-cb
+	verif_Reach("both done")
+	verif_Assert(oa.err == nil && ob.err == nil, "encryption and decryption succeed under concurrent use")
+	verif_Assert(bytes.Equal(oa.second, refA) && bytes.Equal(ob.second, refB), "the second hash is the same as in a sequential call")
+	verif_Assert(bytes.Equal(oa.enc, encA) && bytes.Equal(ob.enc, encB), "encryption gives the same bytes as a sequential call")
+	verif_Assert(bytes.Equal(oa.dec, payload) && bytes.Equal(ob.dec, payload), "decryption returns the payload")
+}
